@@ -328,11 +328,37 @@ func C17(c *core.Ctx) {
 			}
 			return false
 		}
+		// a compensating call withdraws what the command installed (the face turned out
+		// to be gone after the route was added): a refusal that follows it answers for an
+		// unchanged table
+		isUndo := func(in ssa.Instruction) bool {
+			ci, ok := in.(ssa.CallInstruction)
+			if !ok {
+				return false
+			}
+			id, ok := core.Callee(ci.Common())
+			return ok && id.Pkg == "fw/table" && (id.Name == "CleanUpFace" || id.Name == "RemoveRouteEnc")
+		}
+		undone := func(m, r ssa.Instruction) bool {
+			return core.BetweenDeep(fn, m, r, isUndo)
+		}
 		okFollow := true
 		for _, m := range stateMuts {
 			// a later mutator of the same command may precede the response; an error
-			// response after a mutation is a violation
-			if fr := core.MustFollowDeep(fn, core.After(m), isOKResp, nil); !fr.OK {
+			// response after a mutation is a violation unless the mutation was withdrawn
+			m := m
+			isEnd := func(in ssa.Instruction) bool {
+				if isOKResp(in) {
+					return true
+				}
+				for _, r := range resps {
+					if r.call == in && r.known && r.status >= 400 && undone(m, in) {
+						return true
+					}
+				}
+				return false
+			}
+			if fr := core.MustFollowDeep(fn, core.After(m), isEnd, nil); !fr.OK {
 				okFollow = false
 			}
 		}
@@ -350,7 +376,10 @@ func C17(c *core.Ctx) {
 			} else {
 				// refusal: no mutation may precede it on any path
 				for _, m := range stateMuts {
-					if core.ReachableFrom(core.After(m), r.call) {
+					if isUndo(m) {
+						continue
+					}
+					if core.ReachableFrom(core.After(m), r.call) && !undone(m, r.call) {
 						bad = fmt.Sprintf("status %d after a mutation at %s", r.status, c.Pos(r.call))
 					}
 				}
@@ -1030,6 +1059,67 @@ func c17Round4(c *core.Ctx) {
 				}
 			}
 			c.Decide(okC, "R17.7", fmt.Sprintf("installed-strategy-name-is-canonical#%d", i), c.Pos(m), "the installed strategy name ends in NewVersionComponent(version) on every path", "strategy-choice/set hands the strategy name of the command to the table as it came (at least on one path): a version number in a longer-than-shortest encoding is stored verbatim, the forwarding threads know the instance under the canonical name only, and the next packet under the prefix crashes the daemon")
+		}
+	}
+
+	// ---- R17.10 a route is installed only on a face that exists — the requesting face
+	// included (it may have been removed while its command was queued) — and the face is
+	// looked up again after the route is in the table: faces are removed from their own
+	// goroutines, a removal that ran between the check and the insertion has already
+	// cleaned up and will not run again (face ids are not reused)
+	if reg := c.Fn("R17.10", "fw/mgmt", "RIBModule", "register"); reg != nil {
+		var add ssa.Instruction
+		for _, ci := range core.FindCallsDeep(reg, core.CalleeID{Pkg: "fw/table", Recv: "RibTable", Name: "AddEncRoute"}) {
+			add = ci
+		}
+		var faceV ssa.Value
+		core.InstrsDeep(reg, func(in ssa.Instruction) {
+			if _, v, ok := storeToField(in, "Route", "FaceID"); ok {
+				faceV = v
+			}
+		})
+		if add == nil || faceV == nil {
+			c.Und("R17.10", "route-face-exists", p.Pos(reg.Pos()), "AddEncRoute call or Route.FaceID store not found in register")
+		} else {
+			exists := &core.Atom{Name: "FaceTable.Get(route face) != nil", Match: func(cond ssa.Value) (int, int) {
+				op, x, y, ok := core.Cmp(cond)
+				if !ok || (op != token.EQL && op != token.NEQ) || !core.IsNilConst(y) {
+					return 0, 0
+				}
+				cl, isCall := core.Strip(x).(*ssa.Call)
+				if !isCall {
+					return 0, 0
+				}
+				if id, okID := core.Callee(&cl.Call); !okID || id.Name != "Get" || id.Recv != "Table" {
+					return 0, 0
+				}
+				_, a := core.CallArgs(&cl.Call)
+				if len(a) != 1 || !(core.Strip(a[0]) == core.Strip(faceV) || core.Same(a[0], faceV)) {
+					return 0, 0
+				}
+				return core.Iff(op == token.NEQ)
+			}}
+			g := core.GateDeep(reg, []ssa.Instruction{add}, pos(exists))
+			c.Decide(g.OK && g.PassEdges > 0, "R17.10", "route-face-exists", c.Pos(add), "AddEncRoute is reachable only when the face the route is put on — named or requesting — is in the face table", "rib/register installs the route without having found its face in the face table on some path (the requesting face is taken for granted): a command of a face removed while the command was queued leaves a permanent route and next hop on a dead face id; path: "+p.PathString(g.Path))
+			// after the insertion: every 200 response is behind a second existence test
+			cut, _ := core.CutEdgesDeep(reg, pos(exists))
+			leak := ""
+			for _, ci := range core.FindCallsDeep(reg, core.CalleeID{Pkg: "fw/mgmt", Recv: "Thread", Name: "sendResponse"}) {
+				if ci.Parent() != add.Parent() {
+					continue
+				}
+				if core.ReachInstrFrom(core.After(add), ci, cut, func(x ssa.Instruction) bool {
+					y, isCI := x.(ssa.CallInstruction)
+					if !isCI {
+						return false
+					}
+					id, okID := core.Callee(y.Common())
+					return okID && id.Name == "CleanUpFace"
+				}) != nil {
+					leak = c.Pos(ci)
+				}
+			}
+			c.Decide(leak == "", "R17.10", "route-face-rechecked-after-insertion", c.Pos(add), "after AddEncRoute every response is behind a second look-up of the face (or the withdrawal of its routes)", "rib/register answers ("+leak+") after AddEncRoute without looking the face up again: a face removed between the existence test and the insertion has already had its routes cleaned up, so the new route stays on the dead face id for ever")
 		}
 	}
 
